@@ -105,6 +105,9 @@ def judge(cfg, chunks, ending, extras, res, d):
         if "X-EXIT-STATUS:0\n" in j:
             return ("the requested shell does not exist and the job never ran, the journal records X-EXIT-STATUS:0",
                     "ofile=- efile=- mail=-")
+        if "BEGIN:VTODO" not in j or "STATUS:CANCELLED" not in j:
+            return ("the requested shell does not exist and the job never ran, the journal says nothing about it: %r" % j[-200:],
+                    "ofile=- efile=- mail=-")
         return None, "ofile=- efile=- mail=-"
     tot_o = sum(n for s, n in chunks if s == "o")
     tot_e = sum(n for s, n in chunks if s == "e")
@@ -232,6 +235,7 @@ def run(ctx):
         if why:
             fails.append((i, "OFILE=%d EFILE=%d same=%d MAIL-OUT=%d MAIL-ERR=%d, job %s %s: %s" % (cfg + (lines[-1].split("|")[1].strip(), ending, why))))
     shutil.rmtree(base, ignore_errors=True)
+    probes(ctx, exe, fails)
     if leftover and not fails:
         fails.append((0, "%d temporary file(s) /tmp/echsXXXXXXXX left behind" % len(leftover)))
     model = [re.sub(r" mrm=\d", "", m) for m in ctx.model(lines)]
@@ -262,6 +266,71 @@ def run(ctx):
         ctx.violation("correspondence", "observed routing and the model's plan differ on %d runs although each run met the table; first: %s impl=%s model=%s"
                       % (len(corr), op, a, b), {"correspondence": "Echse.Model.Exec vs echsx.c prep_task/data_cb", "op": op, "impl": a, "model": b},
                       found_input=False)
+
+
+def probes(ctx, exe, fails):
+    """hand-made requests next to the matrix: several jobs in one request, a request without command, and three recorded
+    limits (a job that cannot be started, output of a background writer, one file under two spellings)"""
+    base = tempfile.mkdtemp(prefix="hxprobe-", dir=os.environ.get("TMPDIR", "/tmp"))
+    uid, gid = os.getuid(), os.getgid()
+
+    def vtodo(name, cmd, extra, shell="/bin/sh", wd=None):
+        return ["BEGIN:VTODO", "UID:%s" % name] + (["SUMMARY:%s" % cmd] if cmd is not None else []) + \
+               ["X-ECHS-SETUID:%d" % uid, "X-ECHS-SETGID:%d" % gid, "X-ECHS-SHELL:%s" % shell, "LOCATION:%s" % (wd or base)] + extra + \
+               ["ORGANIZER:echse", "ATTENDEE:root", "END:VTODO"]
+
+    def run(todos):
+        text = "\n".join(["BEGIN:VCALENDAR", "VERSION:2.0"] + sum(todos, []) + ["END:VCALENDAR", ""])
+        try:
+            r = subprocess.run([exe, "-v"], input=text.encode(), stdout=subprocess.PIPE, stderr=subprocess.PIPE, timeout=60,
+                               env=dict(os.environ, HX_SENDMAIL="/bin/true", ASAN_OPTIONS="detect_leaks=0"))
+            return r.returncode, r.stdout.decode("latin-1"), r.stderr.decode("latin-1")
+        except subprocess.TimeoutExpired:
+            return None, "", "timeout"
+
+    def rd(fn):
+        try:
+            return open(os.path.join(base, fn)).read()
+        except OSError:
+            return None
+    seen = {}
+    # two jobs in one request (main() loops over the VTODOs of a request), output through pipes and through a file
+    for tag, extra in (("p", ["X-ECHS-MAIL-OUT:1", "X-ECHS-MAIL-ERR:1"]), ("f", ["X-ECHS-MAIL-OUT:0", "X-ECHS-MAIL-ERR:0"])):
+        rc, j, err = run([vtodo("two%s1" % tag, "echo one", ["X-ECHS-OFILE:%s/%s1" % (base, tag)] + extra),
+                          vtodo("two%s2" % tag, "echo two", ["X-ECHS-OFILE:%s/%s2" % (base, tag)] + extra)])
+        ents = re.findall(r"BEGIN:VTODO\n(.*?)END:VTODO", j, re.S)
+        if (rd(tag + "1"), rd(tag + "2")) != ("one\n", "two\n") or len(ents) != 2 or not all(e.startswith("DTSTAMP:") for e in ents) \
+                or j.count("X-EXIT-STATUS:0") != 2:
+            fails.append((0, "a request with two jobs (`echo one', `echo two', OFILE each%s): files hold %r and %r, the journal has %d entries "
+                             "beginning %s; log: %s" % (", MAIL-OUT, MAIL-ERR" if tag == "p" else "", rd(tag + "1"), rd(tag + "2"), len(ents),
+                                                       [e[:12] for e in ents], err[-200:])))
+    # no command
+    rc, j, err = run([vtodo("nocmd", None, ["X-ECHS-MAIL-OUT:0", "X-ECHS-MAIL-ERR:0"])])
+    if rc is None or rc < 0 or "Sanitizer" in err or "STATUS:CANCELLED" not in j:
+        fails.append((0, "a request without SUMMARY: echsx ends with %s, journal %r, log %s" % (rc, j[-120:], err[-300:])))
+    # a job that cannot be started
+    rc, j, err = run([vtodo("noshell", "echo x", ["X-ECHS-MAIL-OUT:0", "X-ECHS-MAIL-ERR:0"], shell="/nonexistent/hx-no-such-shell")])
+    if "BEGIN:VTODO" not in j:
+        seen["not-started"] = "the requested shell does not exist: no journal entry at all (exit %s, log: %s)" % (rc, err.strip()[-160:])
+    # a background process of the job goes on writing after the shell has gone
+    rc, j, err = run([vtodo("late", "(sleep 1; echo late-out) & echo early-out", ["X-ECHS-OFILE:%s/late" % base, "X-ECHS-MAIL-OUT:1", "X-ECHS-MAIL-ERR:1"])])
+    if rd("late") != "early-out\nlate-out\n":
+        seen["late-output"] = "`(sleep 1; echo late-out) & echo early-out' with OFILE, MAIL-OUT, MAIL-ERR: the file holds %r" % rd("late")
+    # one file under two names
+    rc, j, err = run([vtodo("alias", "i=0; while [ $i -lt 300 ]; do echo oooooooooooooooooooooooooooooooooooooooo; echo eeeeeeeeeeeeeeeeeeeeeeeeeeeeeeeeeeeeeeee >&2; i=$((i+1)); done",
+                            ["X-ECHS-OFILE:%s/both.log" % base, "X-ECHS-EFILE:%s/./both.log" % base, "X-ECHS-MAIL-OUT:0", "X-ECHS-MAIL-ERR:0"])])
+    got = rd("both.log") or ""
+    if (got.count("ooooo"), got.count("eeeee")) != (300, 300):
+        seen["same-file-alias"] = "OFILE and EFILE name one file in two spellings, 300 lines on each stream: the file holds %d and %d" % (
+            sum(1 for l in got.split("\n") if l.startswith("ooooo")), sum(1 for l in got.split("\n") if l.startswith("eeeee")))
+    shutil.rmtree(base, ignore_errors=True)
+    ctx.cov["probes"] = dict(seen) or "all probes as demanded"
+    known = {k.get("class"): k for k in common.load_known("C13") if k.get("status") == "known"}
+    for c, why in seen.items():
+        if c in known:
+            ctx.known(known[c]["what"])
+        else:
+            fails.append((0, why))
 
 
 def replay(ctx, rep):
